@@ -44,3 +44,57 @@ Proof.
   intros p bytes Hp HF. destruct (huffman_stream_bits p bytes Hp HF) as [_ H].
   apply N.div_le_mono; lia.
 Qed.
+
+(* ---------- the max_serialized_bytes table ---------- *)
+(* The 16 empirical entries cannot be derived; what can be checked is their shape: sizes grow with K but less
+   than proportionally (the streams double, the header does not), never exceed the 12-bits-per-window-byte
+   ceiling 1.5 K, and meet the 0.6 K rule used beyond lg_k = 19 within 0.1 %. *)
+Definition size_entry (i : N) : N := zN (nth (N.to_nat i) Gen.GenCpc.EMPIRICAL_MAX_SIZE_BYTES 0%Z).
+
+Definition size_table_ok : bool :=
+  (N.of_nat (length Gen.GenCpc.EMPIRICAL_MAX_SIZE_BYTES) =? 16) &&
+  forallb (fun i => (size_entry i <? size_entry (i + 1)) && (size_entry (i + 1) <? 2 * size_entry i)) (range 15) &&
+  forallb (fun i => (1 <=? size_entry i) && (8 * size_entry i <=? 12 * 2 ^ (i + 4))) (range 16) &&
+  (1000 * (5 * size_entry 15 - 3 * 2 ^ 19) <=? 3 * 2 ^ 19) && (3 * 2 ^ 19 <=? 5 * size_entry 15).
+
+Lemma size_table_ok_true : size_table_ok = true.
+Proof. vm_compute. reflexivity. Qed.
+
+Theorem max_size_table_shape :
+  length Gen.GenCpc.EMPIRICAL_MAX_SIZE_BYTES = 16%nat /\
+  (forall i, i < 15 -> size_entry i < size_entry (i + 1) < 2 * size_entry i) /\
+  (forall i, i < 16 -> 1 <= size_entry i /\ 8 * size_entry i <= 12 * 2 ^ (i + 4)) /\
+  3 * 2 ^ 19 <= 5 * size_entry 15 /\ 1000 * (5 * size_entry 15 - 3 * 2 ^ 19) <= 3 * 2 ^ 19.
+Proof.
+  pose proof size_table_ok_true as H. unfold size_table_ok in H.
+  apply andb_true_iff in H. destruct H as [H H5]. apply andb_true_iff in H. destruct H as [H H4].
+  apply andb_true_iff in H. destruct H as [H H3]. apply andb_true_iff in H. destruct H as [H1 H2].
+  split; [lia|]. split.
+  { intros i Hi. rewrite forallb_forall in H2. specialize (H2 i (proj2 (range_In 15 i) Hi)). lia. }
+  split.
+  { intros i Hi. rewrite forallb_forall in H3. specialize (H3 i (proj2 (range_In 16 i) Hi)). lia. }
+  lia.
+Qed.
+
+(* max_serialized_bytes is defined and strictly increasing over the whole range lg_k 4..=26, across the switch
+   from the table to the 0.6 K rule (binary64 product truncated to an integer) *)
+Definition max_size_mono_ok : bool :=
+  forallb (fun l => match max_serialized_bytes l, max_serialized_bytes (l + 1) with
+                    | Ok a, Ok b => (a <? b) && (b <? 2 * a)
+                    | _, _ => false end) (map (fun i => i + 4) (range 22)).
+
+Lemma max_size_mono_ok_true : max_size_mono_ok = true.
+Proof. vm_compute. reflexivity. Qed.
+
+Theorem max_serialized_bytes_monotone : forall l, 4 <= l <= 25 ->
+  exists a b, max_serialized_bytes l = Ok a /\ max_serialized_bytes (l + 1) = Ok b /\ a < b < 2 * a.
+Proof.
+  intros l Hl. pose proof max_size_mono_ok_true as H. unfold max_size_mono_ok in H.
+  rewrite forallb_forall in H.
+  assert (Hin : In l (map (fun i => i + 4) (range 22))).
+  { apply in_map_iff. exists (l - 4). split; [lia|]. apply range_In. lia. }
+  specialize (H l Hin).
+  destruct (max_serialized_bytes l) as [a| |]; try discriminate.
+  destruct (max_serialized_bytes (l + 1)) as [b| |]; try discriminate.
+  exists a, b. repeat split; lia.
+Qed.
